@@ -955,6 +955,11 @@ def network(profile="exact", max_ops=6, dtypes=("int8", "int8", "int8", "uint8",
                 # SHAPE of the current tensor (becomes a constant) as an extra model output; the chain continues unchanged
                 so = nb.t("shape_out", [len(X["shape"])], "int32")
                 nb.op("SHAPE", [cur], [so], "ShapeOptions", dict(OutType=2), version=1)
+                if draw(st.booleans()):
+                    # the folded shape feeds a CPU-resident consumer: the constant has to be written out with the right element type
+                    co = nb.t("shape_custom", [len(X["shape"])], "int32")
+                    nb.op("CUSTOM", [so], [co], None, None, version=1, custom_code="ShapeConsumer", custom_options="00")
+                    so = co
                 nb.extra_outputs = getattr(nb, "extra_outputs", []) + [so]
             elif kind == "prelu":
                 cur = nb.prelu(cur) if X["dtype"] != "int16" else nb.unary(cur, "RELU", same_q=True)
